@@ -142,15 +142,83 @@ pub fn run(seed: u64, ntraces: usize) {
         let mut g = W { w, its: its.clone(), gw: gw.clone(), gas: gas.clone(), owner: owner.clone(), operator: operator.clone(), relayer: relayer.clone(), users: users.clone(), dest: dest.clone(),
             pool, tab: SigTab(vec![]), set, domain, now, steps: vec![], pend: vec![], next_id: 0, next_tm: 0, msg: 0, toks: vec![], paused: false };
 
+        let mut script: Vec<u64> = vec![];
+        // --- directed schedules (every 10th trace): the recorded findings F-C08-1 and F-C17-2
+        if t % 10 == 0 {
+            let u = g.users[0].clone();
+            let (ok, rets, dep) = g.its_tx("registerCanonical", &u, "registerCanonicalInterchainToken", vec![tok.clone()], 0, &[], json!({"token": hx(&tok)}));
+            if ok {
+                let tid = rets.last().unwrap().clone();
+                g.toks.push(Tok { id: tid.clone(), kind: "lock", tm: dep.unwrap(), token: Some(tok.clone()), salt: vec![], deployer: u.clone(), supply: 0, minter: vec![], custody: 100 });
+                let out = |g: &mut W, amt: u64| { let e = vec![(tok.clone(), 0u64, bn(amt))];
+                    g.its_tx("transfer", &u, "interchainTransfer", vec![tid.clone(), b"ethereum".to_vec(), b"0xdead".to_vec(), vec![], vec![]], 0, &e,
+                        json!({"token_id": hx(&tid), "dchain": hx(b"ethereum"), "daddr": hx(b"0xdead"), "metadata": "", "gas": "0"})); };
+                out(&mut g, 100);
+                let opr = g.operator.clone();
+                g.its_tx("setFlowLimits", &opr, "setFlowLimits", vec![big(1), tid.clone(), big(1), big(10)], 0, &[], json!({"ids": [hx(&tid)], "limits": ["10"]}));
+                g.msg += 1; let id = format!("msg-{}", g.msg).into_bytes();
+                let payload = transfer_payload(&tid, b"0xsender", g.dest.as_bytes(), 10, b"with-data");
+                let m = Msg { chain: b"ethereum".to_vec(), id: id.clone(), src: b"0xITSeth".to_vec(), contract: g.its.to_vec(), ph: keccak(&payload) }; g.gw_approve(&m);
+                let rl = g.relayer.clone();
+                g.its_tx("execute", &rl, "execute", vec![b"ethereum".to_vec(), id.clone(), b"0xITSeth".to_vec(), payload.clone()], 0, &[],
+                    json!({"chain": hx(b"ethereum"), "id": hx(&id), "src": hx(b"0xITSeth"), "payload": hx(&payload), "ph": hx(&keccak(&payload)), "label": "directed-c08"}));
+                out(&mut g, 10); out(&mut g, 10);
+                script.extend([21u64, 20]);          // deliver (forced failure), then callback
+            }
+        }
+        if t % 10 == 5 {
+            let u = g.users[1].clone();
+            let (ok, rets, dep) = g.its_tx("registerCanonical", &u, "registerCanonicalInterchainToken", vec![tok.clone()], 0, &[], json!({"token": hx(&tok)}));
+            if ok {
+                g.toks.push(Tok { id: rets.last().unwrap().clone(), kind: "lock", tm: dep.unwrap(), token: Some(tok.clone()), salt: vec![], deployer: u.clone(), supply: 0, minter: vec![], custody: 0 });
+                g.its_tx("deployRemoteCanonical", &u, "deployRemoteCanonicalInterchainToken", vec![tok.clone(), b"ethereum".to_vec()], 333, &[], json!({"token": hx(&tok), "dchain": hx(b"ethereum")}));
+                let ow = g.owner.clone();
+                let (okp, _, _) = g.its_tx("pause", &ow, "pause", vec![], 0, &[], json!({"paused": true})); if okp { g.paused = true; }
+                script.extend([22u64, 10]);          // lookup succeeds while paused, then unpause
+            }
+        }
+        if t % 10 == 8 {   // F-C17-1: hub address removed before the metadata lookup returns
+            let u = g.users[1].clone();
+            g.its_tx("registerMetadata", &u, "registerTokenMetadata", vec![tok.clone()], 777, &[], json!({"token": hx(&tok)}));
+            let ow = g.owner.clone();
+            g.its_tx("removeTrusted", &ow, "removeTrustedAddress", vec![b"axelar".to_vec()], 0, &[], json!({"chain": hx(b"axelar")}));
+            script.extend([22u64]);
+        }
+        if t % 10 == 9 {   // F-C17-5: empty destination chain: the callback falls into the local branch
+            let u = g.users[0].clone();
+            let (ok, rets, dep) = g.its_tx("registerCanonical", &u, "registerCanonicalInterchainToken", vec![tok.clone()], 0, &[], json!({"token": hx(&tok)}));
+            if ok {
+                g.toks.push(Tok { id: rets.last().unwrap().clone(), kind: "lock", tm: dep.unwrap(), token: Some(tok.clone()), salt: vec![], deployer: u.clone(), supply: 0, minter: vec![], custody: 0 });
+                g.its_tx("deployRemoteCanonical", &u, "deployRemoteCanonicalInterchainToken", vec![tok.clone(), vec![]], 444, &[], json!({"token": hx(&tok), "dchain": ""}));
+                script.extend([22u64]);
+            }
+        }
+        if t % 10 == 2 || t % 10 == 3 || t % 10 == 7 {
+            // local deployment driven step by step: (2) two issuances in flight, (3) the service named as minter, (7) steps under pause
+            let u = g.users[2].clone(); let salt = r.bytes(32); let supply = 1000u64;
+            let minter = if t % 10 == 3 { g.its.to_vec() } else { g.users[0].to_vec() };
+            let dt = |g: &mut W, egld: u64| -> (bool, Vec<Vec<u8>>, Option<VMAddress>) {
+                g.its_tx("deployToken", &u, "deployInterchainToken", vec![salt.clone(), b"MyToken".to_vec(), b"MTK".to_vec(), vec![18], big(supply), minter.clone()], egld, &[],
+                    json!({"salt": hx(&salt), "name": hx(b"MyToken"), "symbol": hx(b"MTK"), "decimals": 18, "supply": supply.to_string(), "minter": hx(&minter)})) };
+            let (ok, rets, dep) = dt(&mut g, 0);
+            if ok { if let Some(tm) = dep { g.toks.push(Tok { id: rets.last().unwrap().clone(), kind: "native", tm, token: None, salt: salt.clone(), deployer: u.clone(), supply, minter: minter.clone(), custody: 0 }); } }
+            dt(&mut g, ISSUE_COST);
+            if t % 10 == 2 { dt(&mut g, ISSUE_COST); }                 // a second issuance before the first callback
+            script.extend([23u64]);                                    // first issuance succeeds
+            if t % 10 == 7 { script.extend([10u64, 2, 15, 10]); }       // pause, try step 3 and a remote deployment, unpause
+            else { script.extend([3u64, 23, 3, 3]); }                   // step 3, second issuance callback, step 3 again (twice)
+        }
         // --- a few registrations first, so that later operations have something to act on
         let nactions = 10 + r.below(14) as usize;
-        let mut script: Vec<u64> = vec![0, 2];     // canonical TOK, start a native deployment
+        if script.is_empty() { script = vec![0, 2]; }     // canonical TOK, start a native deployment
         if r.chance(1, 2) { script.push(1); }
         for _ in 0..nactions {
             g.now += match r.below(6) { 0 => 21600, _ => r.below(300) }; let now = g.now; g.w.set_time(now);
             let anyone = r.pick(&g.users).clone();
             let has_pending = !g.pend.is_empty();
             let a = if !script.is_empty() { script.remove(0) } else if has_pending && r.chance(1, 2) { 20 } else { *r.pick(&[0u64, 1, 2, 3, 3, 3, 4, 4, 4, 5, 5, 5, 6, 6, 6, 7, 7, 7, 7, 8, 9, 10, 11, 12, 12, 13, 14, 14, 15, 16, 17, 18]) };
+            let force_fail = a == 21; let force_props_ok = a == 22; let force_issue_ok = a == 23;
+            let a = if a == 21 || a == 22 || a == 23 { 20 } else { a };
             match a {
                 0 => { // registerCanonicalInterchainToken
                     let token = match r.below(5) { 0 => b"EGLD".to_vec(), 1 => b"bad".to_vec(), 2 => tok2.clone(), _ => tok.clone() };
@@ -250,7 +318,7 @@ pub fn run(seed: u64, ntraces: usize) {
                     for k in 0..reps {
                         let egld = if a == 8 && k == 1 { ISSUE_COST } else { 0 };
                         let (ok, _, dep) = g.its_tx("execute", &g.relayer.clone(), "execute", vec![chain.clone(), id.clone(), src.clone(), payload_x.clone()], egld, &[],
-                            json!({"chain": hx(&chain), "id": hx(&id), "src": hx(&src), "payload": hx(&payload_x), "label": format!("in{}/v{}", a, variant)}));
+                            json!({"chain": hx(&chain), "id": hx(&id), "src": hx(&src), "payload": hx(&payload_x), "ph": hx(&keccak(&payload_x)), "label": format!("in{}/v{}", a, variant)}));
                         if ok { if let Some(tm) = dep { if a == 8 { let tid3 = payload[32..64].to_vec(); g.toks.push(Tok { id: tid3, kind: "remote-native", tm, token: None, salt: vec![], deployer: g.relayer.clone(), supply: 0, minter: vec![], custody: 0 }); } } }
                         if r.chance(1, 3) { break; }
                     }
@@ -310,13 +378,16 @@ pub fn run(seed: u64, ntraces: usize) {
                     let (ok, _, _) = g.its_tx("transferOp", &caller, "transferOperatorship", vec![na.to_vec()], 0, &[], json!({"a": hx(na.as_bytes())})); if ok { g.operator = na; } }
                 _ => { // deliver some pending asynchronous step
                     if g.pend.is_empty() { continue; }
-                    let i = r.below(g.pend.len() as u64) as usize;
+                    let mut i = r.below(g.pend.len() as u64) as usize;
+                    if force_issue_ok { if let Some(j) = g.pend.iter().position(|p| matches!(p.kind, PKind::Issue(..))) { i = j; } }
+                    if force_props_ok { if let Some(j) = g.pend.iter().position(|p| matches!(p.kind, PKind::Props(..))) { i = j; } }
+                    if force_fail { if let Some(j) = g.pend.iter().position(|p| matches!(p.kind, PKind::Transfer(_, None))) { i = j; } }
                     let its_addr = g.its.clone();
                     let pid = g.pend[i].id;
                     let advance = match &mut g.pend[i].kind {
                         PKind::Transfer(p, res @ None) => {
                             // destination call: tokens attached to the promise leave the service iff it succeeds
-                            let ok = r.chance(1, 2);
+                            let ok = if force_fail { false } else { r.chance(1, 2) };
                             let transfers = g.w.r.blockchain_mock.vm.builtin_functions.extract_token_transfers(&multiversx_sc_scenario::multiversx_chain_vm::tx_mock::async_call_tx_input(&p.call, multiversx_sc_scenario::multiversx_chain_vm::tx_mock::CallType::AsyncCall));
                             let egld = p.call.call_value.clone(); let to = transfers.real_recipient.clone();
                             let esdts: Vec<(Vec<u8>, BigUint)> = transfers.transfers.iter().map(|t| (t.token_identifier.clone(), t.value.clone())).collect();
@@ -335,7 +406,7 @@ pub fn run(seed: u64, ntraces: usize) {
                             true
                         }
                         PKind::Props(ac, kind) => {
-                            let which = r.below(4);
+                            let which = if force_props_ok { 3 } else { r.below(4) };
                             let (forged, resj) = match which {
                                 0 => (TxResult { result_status: 4, result_message: "no such token".to_string(), ..TxResult::empty() }, Value::Null),
                                 1 => (TxResult { result_values: vec![b"Name".to_vec(), b"NonFungibleESDT".to_vec(), vec![], vec![], vec![], b"NumDecimals-0".to_vec()], ..TxResult::empty() }, json!([hx(b"Name"), hx(b"NonFungibleESDT"), hx(b"NumDecimals-0")])),
@@ -350,7 +421,7 @@ pub fn run(seed: u64, ntraces: usize) {
                         PKind::Issue(ac, tm) => {
                             let tm = tm.clone();
                             let tm_egld = g.w.r.blockchain_mock.state.accounts.get(&tm).unwrap().egld_balance.clone();
-                            let mut ok = r.chance(2, 3); if tm_egld < bn(ISSUE_COST) { ok = false; }
+                            let mut ok = force_issue_ok || r.chance(2, 3); if tm_egld < bn(ISSUE_COST) { ok = false; }
                             let newtok = format!("MTK-{:06x}", r.below(0xffffff)).into_bytes();
                             let forged = if ok { TxResult { result_values: vec![newtok.clone()], ..TxResult::empty() } } else { TxResult { result_status: 4, result_message: "issue failed".to_string(), ..TxResult::empty() } };
                             let cb = async_callback_tx_input(ac, &forged, &g.w.r.blockchain_mock.vm.builtin_functions);
